@@ -139,7 +139,7 @@ impl Sub for TopK {
         let reader: tantivy::IndexReader = index.reader_builder().reload_policy(ReloadPolicy::Manual).try_into().or_fail("reader_open_failed")?;
         let searcher = reader.searcher();
         let um = UidMap::new(&searcher)?;
-        let bcx = BuildCtx { f: &corpus.f, restrict_slop: true, excluded: Default::default() };
+        let bcx = BuildCtx { f: &corpus.f, restrict_slop: true, restrict_fuzzy_prefix: true, excluded: Default::default() };
         let by_uid: BTreeMap<u64, &QDoc> = corpus.docs.iter().map(|(u, d)| (*u, d)).collect();
         let corpus_fp = fp(&c.corpus);
         let n_live = corpus.num_live();
